@@ -94,6 +94,14 @@ class SPRemote(StatefulMixin, PersistentRemoteWorker):
 CLASSES = {'thread': SThread, 'process': SProcess, 'remote': SRemote, 'p_thread': SPThread, 'p_process': SPProcess, 'p_remote': SPRemote}
 
 
+class DyingProcessWorker(ProcessWorker):
+    """process worker whose child exits before it reports its identity (what happens e.g. when the target cannot be imported by the child)"""
+
+    def _run(self):
+        import os
+        os._exit(3)
+
+
 class ProbeThreadWorker(ThreadWorker):
     """thread worker whose is_alive() is a schedule point: HOOK[0](worker) runs first (used by C19 to create another worker exactly
     while active_children() is evaluating the liveness of a registered one)"""
